@@ -24,6 +24,9 @@ def fm {α : Type} (p : Out → Option α) (l : List Out) : List α := l.filterM
 @[simp] theorem fm_nil {α : Type} (p : Out → Option α) : fm p [] = [] := rfl
 @[simp] theorem fm_append {α : Type} (p : Out → Option α) (a b : List Out) : fm p (a ++ b) = fm p a ++ fm p b := by
   simp [fm, List.filterMap_append]
+theorem fm_cons' {α : Type} (p : Out → Option α) (o : Out) (l : List Out) : fm p (o :: l) = (p o).toList ++ fm p l := by
+  simp only [fm, List.filterMap_cons]
+  cases p o <;> rfl
 @[simp] theorem fm_single {α : Type} (p : Out → Option α) (o : Out) : fm p [o] = (p o).toList := by
   simp only [fm, List.filterMap_cons, List.filterMap_nil]
   cases p o <;> rfl
@@ -38,6 +41,7 @@ theorem Only.settings (h : Only p ks) (hk : Kind.settings ∉ ks) (a) : p (.sett
 theorem Only.wu (h : Only p ks) (hk : Kind.wu ∉ ks) (a b) : p (.wu a b) = none := h _ hk
 theorem Only.ping (h : Only p ks) (hk : Kind.ping ∉ ks) (a b) : p (.ping a b) = none := h _ hk
 theorem Only.headers (h : Only p ks) (hk : Kind.headers ∉ ks) (a b c d e f) : p (.headers a b c d e f) = none := h _ hk
+theorem Only.cont (h : Only p ks) (hk : Kind.cont ∉ ks) (a b c d e) : p (.cont a b c d e) = none := h _ hk
 theorem Only.data (h : Only p ks) (hk : Kind.data ∉ ks) (a b c d) : p (.data a b c d) = none := h _ hk
 theorem Only.rst (h : Only p ks) (hk : Kind.rst ∉ ks) (a b) : p (.rst a b) = none := h _ hk
 theorem Only.goAway (h : Only p ks) (hk : Kind.goAway ∉ ks) (a b c) : p (.goAway a b c) = none := h _ hk
@@ -98,12 +102,19 @@ theorem flushStreams_fm (hk : Kind.rst ∉ ks ∧ Kind.data ∉ ks) (r : R) :
   exact foldl_inv (fun x : R => fm p x.out = fm p r.out) closeDone
     (fun b a hb => by rw [closeDone_out, hb]) _ _ h1
 
-theorem responseHeaders_fm (hk : Kind.headers ∉ ks) (r : R) (st : Strm) (resp : Resp) (hb : Bool) :
+/-- the CONTINUATION frames of a header block are invisible to a projection that ignores their kind -/
+theorem fm_contOuts (hk : Kind.cont ∉ ks) (sid : Nat) (fs : List (Bytes × Bytes)) (err : Bool) (frags : List Bytes) :
+    fm p (contOuts sid fs err frags) = [] := by
+  induction frags with
+  | nil => rfl
+  | cons f rest ih => simp [contOuts, fm_cons', ho.cont hk, ih]
+
+theorem responseHeaders_fm (hk : Kind.headers ∉ ks ∧ Kind.cont ∉ ks) (r : R) (st : Strm) (resp : Resp) (hb : Bool) :
     fm p (responseHeaders r st resp hb).out = fm p r.out := by
   simp only [responseHeaders]
-  split <;> simp [ho.headers hk]
+  split <;> simp [cutBlock, blockOuts, fm_cons', ho.headers hk.1, fm_contOuts p ks ho hk.2]
 
-theorem finishRequest_fm (hk : Kind.headers ∉ ks ∧ Kind.rst ∉ ks ∧ Kind.data ∉ ks) (r : R) (uid : Nat) (resp : Resp) :
+theorem finishRequest_fm (hk : (Kind.headers ∉ ks ∧ Kind.cont ∉ ks) ∧ Kind.rst ∉ ks ∧ Kind.data ∉ ks) (r : R) (uid : Nat) (resp : Resp) :
     fm p (finishRequest r uid resp).1.out = fm p r.out := by
   simp only [finishRequest]
   repeat' split
@@ -244,7 +255,7 @@ theorem rlDrain_fm (fuel : Nat) (r : R) : fm p (rlDrain fuel r).out = fm p r.out
     all_goals simp [ih, rlFrame_fm p ks ho hq hd, ho.goAway q2]
 
 omit hd in
-theorem slHandlerDone_fm (hk : Kind.panicLogged ∉ ks ∧ Kind.headers ∉ ks) (r : R) (sid : Nat) (resp : Resp) :
+theorem slHandlerDone_fm (hk : Kind.panicLogged ∉ ks ∧ Kind.headers ∉ ks ∧ Kind.cont ∉ ks) (r : R) (sid : Nat) (resp : Resp) :
     fm p (slHandlerDone r sid resp).out = fm p r.out := by
   obtain ⟨q1, q2, q3, q4, q5, q6, q7⟩ := hq
   simp only [slHandlerDone]
@@ -266,7 +277,7 @@ theorem stepR_fm_input (s : Srv) (ev : Event) (hev : ∀ sid resp, ev ≠ .done 
   | idle => simp [settle_fm p ks ho hq, ho.goAway hq.2.1]
 
 /-- … and neither does a handler completion when `p` ignores HEADERS and the panic marker too -/
-theorem stepR_fm (hk : Kind.panicLogged ∉ ks ∧ Kind.headers ∉ ks) (s : Srv) (ev : Event) : fm p (stepR s ev).out = [] := by
+theorem stepR_fm (hk : Kind.panicLogged ∉ ks ∧ Kind.headers ∉ ks ∧ Kind.cont ∉ ks) (s : Srv) (ev : Event) : fm p (stepR s ev).out = [] := by
   cases ev with
   | done sid resp => simp [stepR, settle_fm p ks ho hq, slHandlerDone_fm p ks ho hq hk]
   | bytes b => exact stepR_fm_input p ks ho hq hd s _ (by intro _ _ h; cases h)
@@ -1484,38 +1495,44 @@ theorem responseHeaders_keeps (r : R) (st : Strm) (resp : Resp) (hb : Bool) :
   simp only [responseHeaders]; split <;> exact ⟨rfl, rfl, rfl⟩
 
 theorem responseHeaders_out (r : R) (st : Strm) (resp : Resp) (hb : Bool) :
-    ∃ len fs e, (responseHeaders r st resp hb).out = r.out ++ [.headers st.id (!hb) true len fs e] := by
-  simp only [responseHeaders]; split <;> exact ⟨_, _, _, rfl⟩
+    ∃ eh len fs e fs' err frags, (responseHeaders r st resp hb).out =
+      r.out ++ (.headers st.id (!hb) eh len fs e :: contOuts st.id fs' err frags) := by
+  simp only [responseHeaders]; split <;> exact ⟨_, _, _, _, _, _, _, rfl⟩
 
 /-- **the response HEADERS** of a stream that has been dispatched, has none yet, and is not running -/
 theorem responseHeaders_inv (st : Strm) (resp : Resp) (hb : Bool) (hi : st.id ∉ H ++ fm pH r.out)
     (hdd : st.id ∈ D ++ fm pD r.out) (hr : ∀ t ∈ sks r, t.2.2.2 = true → t.2.1 ≠ st.id) (h : Inv D H E r) :
     Inv D H E (responseHeaders r st resp hb) := by
   obtain ⟨k1, k2, k3⟩ := responseHeaders_keeps r st resp hb
-  obtain ⟨len, fs, e, ho⟩ := responseHeaders_out r st resp hb
+  obtain ⟨eh, len, fs, e, fs', err, frags, ho⟩ := responseHeaders_out r st resp hb
+  have cD := fm_contOuts pD [.dispatch] pD_only (by simp) st.id fs' err frags
+  have cH := fm_contOuts pH [.headers] pH_only (by simp) st.id fs' err frags
+  have cE := fm_contOuts pE [.headers, .data] pE_only (by simp) st.id fs' err frags
   constructor
   · have key := InvA.hdr h.a st.id hi hdd hr
     rw [k2, k3, ho]
-    simpa [sks, k1, pD, pH, List.append_assoc] using key
+    simpa [sks, k1, pD, pH, cD, cH, fm_cons', List.append_assoc] using key
   · rw [ho]
     cases hb
     · have key := Inv2A.hdrES h.e st.id hi
-      simpa [sks2, k1, pH, pE, List.append_assoc] using key
+      simpa [sks2, k1, pH, pE, cH, cE, fm_cons', List.append_assoc] using key
     · have key := Inv2A.hdr h.e st.id
-      simpa [sks2, k1, pH, pE, List.append_assoc] using key
+      simpa [sks2, k1, pH, pE, cH, cE, fm_cons', List.append_assoc] using key
 
 /-- after response HEADERS without END_STREAM the stream has its HEADERS and has not had END_STREAM -/
 theorem responseHeaders_live (st : Strm) (resp : Resp) (hb : Bool) (hbt : hb = true) (hi : st.id ∉ H ++ fm pH r.out)
     (h : Inv D H E r) :
     st.id ∉ E ++ fm pE (responseHeaders r st resp hb).out ∧ st.id ∈ H ++ fm pH (responseHeaders r st resp hb).out := by
   subst hbt
-  obtain ⟨len, fs, e, ho⟩ := responseHeaders_out r st resp true
+  obtain ⟨eh, len, fs, e, fs', err, frags, ho⟩ := responseHeaders_out r st resp true
+  have cH := fm_contOuts pH [.headers] pH_only (by simp) st.id fs' err frags
+  have cE := fm_contOuts pE [.headers, .data] pE_only (by simp) st.id fs' err frags
   rw [ho]
   constructor
   · intro hm
-    have : st.id ∈ E ++ fm pE r.out := by simpa [pE] using hm
+    have : st.id ∈ E ++ fm pE r.out := by simpa [pE, cE, fm_cons'] using hm
     exact hi (h.e.eh _ this)
-  · simp [pH]
+  · simp [pH, fm_cons']
 
 theorem bnot_ne_true {b : Bool} (h : ¬ (!b) = true) : b = true := by cases b <;> simp_all
 
@@ -1883,7 +1900,7 @@ theorem finishRequest_pH (r : R) (uid : Nat) (resp : Resp) :
     simp only [finishRequest, hg]
     repeat' split
     all_goals simp [sendData_fm pH _ pH_only (by simp), responseHeaders]
-    all_goals (split <;> simp [pH])
+    all_goals (split <;> simp [pH, cutBlock, blockOuts, fm_cons', fm_contOuts pH [.headers] pH_only (by simp)])
 
 theorem upd_get_id {D H E : List Nat} {r : R} (h : Inv D H E r) {st : Strm} (hm : st ∈ r.s.strms) (f : Strm → Strm)
     (hf : ∀ x, (f x).id = x.id) (st1 : Strm) (hg : (r.updStrm st.uid f).getStrm st.uid = some st1) : st1.id = st.id := by
